@@ -33,7 +33,7 @@ theorem post_of_posti {α} {P : α → Prop} {m : SM α} (h : PostI (fun _ => Tr
 
 /-- every value of `quiescence` is in range (restating `posti_quiescence_range` without a state invariant) -/
 theorem post_quiescence_range (K : Keys) (C : Pos → Prop)
-    (hmove : ∀ p m q, C p → makeMove K p m = some q → isLegal q = true → C q)
+    (hmove : ∀ p m q, C p → GenMv p m → makeMove K p m = some q → isLegal q = true → C q)
     (heval : ∀ p v, C p → evalRaw p = some v → EvalRange v)
     (fuel : Nat) (p : Pos) (hp : C p) (alpha beta : Int) (ply : Nat) (ha : InRange alpha) (hb : InRange beta) :
     Post InRange (quiescence K fuel p alpha beta ply) :=
@@ -41,16 +41,18 @@ theorem post_quiescence_range (K : Keys) (C : Pos → Prop)
     (fun p v hp hv => evalrange_mate (heval p v hp hv)) fuel p hp alpha beta ply ha hb).toPostI) (fun _ h => h.1)
 
 theorem post_qLoop_int (K : Keys) (C : Pos → Prop)
-    (hmove : ∀ p m q, C p → makeMove K p m = some q → isLegal q = true → C q)
+    (hmove : ∀ p m q, C p → GenMv p m → makeMove K p m = some q → isLegal q = true → C q)
     (recur : Pos → Int → Int → Nat → SM Int)
     (hrec : ∀ q a b pl, C q → InRange a → InRange b →
       Post (fun v => InRange v ∧ (a < v ∧ v < b → EvalRange v)) (recur q a b pl))
-    (p : Pos) (hp : C p) (sp beta : Int) (ply : Nat) (eg : Bool) (a0 : Int) (l : List Move) (a : Int)
-    (ha : InRange a) (hb : InRange beta) (hpr : a0 < a → EvalRange a) :
+    (p : Pos) (hp : C p) (sp beta : Int) (ply : Nat) (eg : Bool) (a0 : Int) (l : List Move) (hl : ∀ m ∈ l, GenMv p m)
+    (a : Int) (ha : InRange a) (hb : InRange beta) (hpr : a0 < a → EvalRange a) :
     Post (fun v => a0 < v ∧ v < beta → EvalRange v) (qLoop K recur p sp beta ply eg l a) := by
   induction l generalizing a with
   | nil => unfold qLoop; exact post_pure (fun h => hpr h.1)
   | cons m rest ih =>
+    replace ih := ih (fun m' hm' => hl m' (List.mem_cons_of_mem _ hm'))
+    have hgm : GenMv p m := hl m List.mem_cons_self
     unfold qLoop
     extract_lets jp2 jp1
     have h2 : ∀ sn, Post (fun v => a0 < v ∧ v < beta → EvalRange v) (jp2 sn) := by
@@ -65,7 +67,7 @@ theorem post_qLoop_int (K : Keys) (C : Pos → Prop)
           · exact ih a ha hpr
           · rename_i hleg
             have hleg : isLegal q = true := by simpa using hleg
-            refine post_bind_of (hrec _ _ _ _ (hmove p m q hp hq hleg) (inrange_neg hb) (inrange_neg ha)) ?_
+            refine post_bind_of (hrec _ _ _ _ (hmove p m q hp hgm hq hleg) (inrange_neg hb) (inrange_neg ha)) ?_
             intro sc hsc
             extract_lets score
             obtain ⟨hr, hint⟩ := hsc
@@ -101,7 +103,7 @@ theorem post_qLoop_int (K : Keys) (C : Pos → Prop)
 
 /-- a value strictly inside the window is an evaluation -/
 theorem post_quiescence_int (K : Keys) (C : Pos → Prop)
-    (hmove : ∀ p m q, C p → makeMove K p m = some q → isLegal q = true → C q)
+    (hmove : ∀ p m q, C p → GenMv p m → makeMove K p m = some q → isLegal q = true → C q)
     (heval : ∀ p v, C p → evalRaw p = some v → EvalRange v)
     (fuel : Nat) (p : Pos) (hp : C p) (alpha beta : Int) (ply : Nat) (ha : InRange alpha) (hb : InRange beta) :
     Post (fun v => alpha < v ∧ v < beta → EvalRange v) (quiescence K fuel p alpha beta ply) := by
@@ -128,10 +130,10 @@ theorem post_quiescence_int (K : Keys) (C : Pos → Prop)
         · exact fun h => absurd h (Int.lt_irrefl _)
       split
       · exact post_pure (fun h => hpr h.1)
-      · refine post_bind (fun s => post_bind (fun scored => ?_))
+      · refine post_bind (fun s => post_bind_of (post_ofOption _) (fun scored hsc => ?_))
         exact post_qLoop_int K C hmove _
           (fun q a b pl hq ha hb => post_and (post_quiescence_range K C hmove heval fuel q hq a b pl ha hb) (ih q hq a b pl ha hb))
-          p hp sp beta ply _ alpha _ alpha' ha' hb hpr
+          p hp sp beta ply _ alpha _ (genMv_visit_caps p _ _ _ ply scored hsc) alpha' ha' hb hpr
 
 end BadWin
 end Clemens
